@@ -6,7 +6,7 @@ from typing import Optional
 
 from ..astutil import calls, get_arg, names_in, text, walk_no_nested
 from ..cfg import CFG, Node
-from ..index import FuncInfo
+from ..index import AnalysisError, FuncInfo
 from ..report import Ctx
 
 REPORTERS = ('validation_error', 'decode_error', 'encode_error', 'children_validation_error',
@@ -292,3 +292,56 @@ def context_copy_shares(ctx: Ctx, rule: str, attrs: tuple[str, ...]) -> None:
     e = ctx.idx.func('xmlschema.validators.elements.XsdElement.raw_decode')
     n = sum(1 for s_ in walk_no_nested(e.node) if isinstance(s_, ast.Assign) and text(s_.targets[0]) == 'context' and text(s_.value) in ('_copy(context)', 'copy(context)'))
     ctx.floor(rule, 'sites of XsdElement.raw_decode that continue with a copied context', n, 1)
+
+
+_INPLACE = {'add', 'append', 'extend', 'update', 'clear', 'pop', 'popitem', 'remove', 'discard', 'setdefault', 'insert', 'sort', 'reverse',
+            'intersection_update', 'difference_update', 'symmetric_difference_update'}
+
+
+def copy_owns(ctx: Ctx, rule: str, cls_qualname: str, ops: tuple[str, ...], floor: int = 1) -> None:
+    """Ownership of mutable state across copies: every attribute that the operations ``ops`` (methods that the code base applies to
+    *copies* of a component) mutate in place must be re-created by ``__copy__`` (``.copy()``, a constructor or a literal), otherwise the
+    operation on the copy also changes the original."""
+    c = ctx.idx.cls(cls_qualname)
+    cp = c.find_method('__copy__')
+    if cp is None:
+        raise AnalysisError(f'missing anchor {cls_qualname}.__copy__')
+    ctx.analysed(cp.qualname)
+    fresh = set()
+    for s in walk_no_nested(cp.node):
+        if isinstance(s, ast.Assign) and isinstance(s.targets[0], ast.Attribute) and isinstance(s.targets[0].value, ast.Name) \
+                and s.targets[0].value.id != 'self':
+            v = s.value
+            if (isinstance(v, ast.Call) and not (isinstance(v.func, ast.Name) and v.func.id == 'getattr')) or \
+                    isinstance(v, (ast.List, ast.Dict, ast.Set, ast.ListComp, ast.DictComp, ast.SetComp)):
+                fresh.add(s.targets[0].attr)
+    generic = 'isinstance(value, (dict, list' in text(cp.node) and 'value.copy()' in text(cp.node)
+    mutated: dict[str, list[str]] = {}
+    for k in ctx.idx.subclasses(c):
+        for op in ops:
+            m = k.methods.get(op)
+            if m is None:
+                continue
+            ctx.analysed(m.qualname)
+            for n in walk_no_nested(m.node):
+                a = None
+                if isinstance(n, ast.Call) and isinstance(n.func, ast.Attribute) and n.func.attr in _INPLACE and \
+                        isinstance(n.func.value, ast.Attribute) and text(n.func.value.value) == 'self':
+                    a = n.func.value.attr
+                elif isinstance(n, (ast.Assign, ast.AugAssign, ast.Delete)):
+                    tg = n.targets if isinstance(n, (ast.Assign, ast.Delete)) else [n.target]
+                    for t in tg:
+                        if isinstance(t, ast.Subscript) and isinstance(t.value, ast.Attribute) and text(t.value.value) == 'self':
+                            a = t.value.attr
+                        if isinstance(n, ast.AugAssign) and isinstance(t, ast.Attribute) and text(t.value) == 'self' and \
+                                isinstance(n.op, (ast.BitAnd, ast.BitOr, ast.Sub, ast.BitXor)):
+                            a = t.attr
+                if a:
+                    mutated.setdefault(a, []).append(f'{k.name}.{op}')
+    ctx.floor(rule, f'attributes mutated in place by {ops} of {c.name}', len(mutated), floor)
+    for a, where in sorted(mutated.items()):
+        ok = a in fresh or generic
+        ctx.ob(rule, f'{c.name}.__copy__ gives the copy its own `{a}` (mutated in place by {sorted(set(where))[0]})', cp.loc(), ok,
+               '' if ok else f'`{a}` is shared between a component and its copies: {sorted(set(where))[0]}() applied to the copy silently changes the original '
+               f'(e.g. the wildcard of a global attribute group narrowed by one complex type also narrows every other user)',
+               key=f'{cls_qualname}.__copy__|owns|{a}')
